@@ -9,7 +9,7 @@
 import Ipv8.C02.RoundTrip
 
 namespace Ipv8.C02
-open Gen Spec
+open Gen Spec Frame
 
 /-! ## round trip at any position -/
 
@@ -462,6 +462,61 @@ theorem generated_similarity_response_unpack (ident : Nat) (prefs tb : Bytes) :
     `names` order (8 per `bits`), `from_unpack_list` passes the unpacked values straight to the constructor, `__init__` stores
     them as they are — except `identifier % 65536` at the position `Old.identPos` says -/
 theorem generated_code_is_canonical : ∀ p ∈ payloads, codeIsCanonical p = true := by decide
+
+/-! ## the datagram frame of an overlay message (`EZPackOverlay._ez_pack` / `_ez_unpack_auth`, model `Frame.lean`) -/
+
+/-- a signed frame — 22-byte prefix, message id, key field, global time, message, signature — decodes to the key AS SENT
+    (any byte string below 64 KiB: canonical or not), the global time and the message's values, for every message format
+    (also `raw`-terminated: the signature is cut off first) and every non-empty signature.  The bytes cut off the front are
+    `2 + |key field on the wire|`; a model that cut another length (e.g. that of a re-encoded key) fails this. -/
+theorem framed_roundtrip (pre key sig msgb : Bytes) (m gt : Nat) (fs : FmtList) (vs : ValList)
+    (hpre : pre.length = 22) (hk : key.length < 65536) (hgt : gt < 256 ^ 8)
+    (hwf : wfList fs vs = true) (hp : packList fs vs = .ok msgb) (hsig : 0 < sig.length) :
+    ezUnpackAuth sig.length [distFmts, fs]
+        ((pre ++ [UInt8.ofNat m]) ++ ((beEnc 2 key.length ++ key) ++ (beEnc 8 gt ++ (msgb ++ sig))))
+      = .ok (key, [.cons (.atom (.nat gt)) .nil, vs]) := by
+  have hA : (pre ++ [UInt8.ofNat m]).length = 23 := by simp [hpre]
+  -- 1. the key field
+  have hauthp : packList authFmts (.cons (.atom (.bytes key)) .nil) = .ok (beEnc 2 key.length ++ key) := by
+    have : packUint 2 (key.length / 1) = .ok (beEnc 2 key.length) := by
+      simp [packUint, Nat.div_one]; omega
+    simp only [Nat.div_one] at this
+    simp [authFmts, packList, pack, this, bind, Except.bind]
+  have hauth := rtList authFmts (.cons (.atom (.bytes key)) .nil) (beEnc 2 key.length ++ key) (pre ++ [UInt8.ofNat m])
+    (beEnc 8 gt ++ (msgb ++ sig)) hauthp (by simp [authFmts, wfList, wf, Nat.mod_one]) (by intro h; simp [authFmts, endsInRawL, endsInRaw] at h)
+  rw [hA] at hauth
+  -- 2. the remainder
+  have hdata : (pre ++ [UInt8.ofNat m]) ++ ((beEnc 2 key.length ++ key) ++ (beEnc 8 gt ++ (msgb ++ sig)))
+      = ((pre ++ [UInt8.ofNat m]) ++ (beEnc 2 key.length ++ key)) ++ (beEnc 8 gt ++ (msgb ++ sig)) := by simp
+  have hrem := slice_lemma ((pre ++ [UInt8.ofNat m]) ++ (beEnc 2 key.length ++ key)) (beEnc 8 gt) msgb sig (2 + key.length)
+    (by simp [beEnc_length]; omega) hsig
+  generalize hR0 : ((pre ++ [UInt8.ofNat m]) ++ (beEnc 2 key.length ++ key)).drop (2 + key.length) = r0 at hrem
+  have hr0 : r0.length = 23 := by rw [← hR0]; simp [List.length_drop, hpre, beEnc_length]; omega
+  -- 3. global time and the message inside the remainder
+  have hdistp : packList distFmts (.cons (.atom (.nat gt)) .nil) = .ok (beEnc 8 gt) := by
+    simp [distFmts, packList, pack, packFields, packField, packUint, hgt, bind, Except.bind]
+  have hd := rtList distFmts (.cons (.atom (.nat gt)) .nil) (beEnc 8 gt) r0 msgb hdistp
+    (by simp [distFmts, wfList, wf, wfFields, wfField]) (by intro h; simp [distFmts, endsInRawL, endsInRaw] at h)
+  have hm := rtList fs vs msgb (r0 ++ beEnc 8 gt) [] hp hwf (fun _ => rfl)
+  rw [hr0] at hd
+  have hl2 : (r0 ++ beEnc 8 gt).length = 23 + 8 := by simp [hr0, beEnc_length]
+  rw [hl2] at hm
+  have hm' : unpackListAt fs (r0 ++ beEnc 8 gt ++ (msgb ++ [])) (23 + (beEnc 8 gt).length) = .ok (vs, 23 + 8 + msgb.length) := by
+    rw [beEnc_length]; exact hm
+  have e1 : r0 ++ (beEnc 8 gt ++ msgb) = (r0 ++ beEnc 8 gt) ++ (msgb ++ []) := by simp
+  unfold ezUnpackAuth
+  rw [hauth]
+  simp only [bind, Except.bind]
+  rw [hdata, hrem]
+  simp only [unpackPayloadsAt, bind, Except.bind, hd]
+  rw [e1, hm']
+  simp [beEnc_length, hr0]
+  rw [if_pos (by omega)]
+
+/-- non-vacuity: a 3-byte key, global time 5, an `H` message, a 2-byte signature (evaluation of the model) -/
+example : Frame.ezUnpackAuth 2 [Frame.distFmts, .cons (.struct [.uint 2]) .nil]
+      (List.replicate 22 7 ++ [9] ++ ([0, 3] ++ [1, 2, 3]) ++ [0, 0, 0, 0, 0, 0, 0, 5] ++ [1, 2] ++ [0xEE, 0xEF])
+    = .ok ([1, 2, 3], [.cons (.atom (.nat 5)) .nil, .cons (.atom (.nat 258)) .nil]) := by decide
 
 /-! ## serializer instances: an overlay encodes and decodes with ITS OWN packer table -/
 
